@@ -116,13 +116,52 @@ theorem targets_order (ts : List Path) :
   exact absurd h3 (by simp)
 
 /-- **files_before_dir** — the effect of `targets_order`: when `clean_targets` (no dry run) reaches a target
-    directory `d` whose whole content are target files of the same task, `d` is empty and is removed -/
+    directory `d` whose whole content are target files of the same task (no symbolic links around), `d` is empty
+    and is removed -/
 theorem files_before_dir (t : Name) (targets : List Path) (w : World) (evs : List Ev) (d : Path)
-    (hd : d ∈ targets) (hnf : d ∉ w.files)
+    (hd : d ∈ targets) (hnf : d ∉ w.files) (hnl : w.links = [])
     (hfiles : ∀ q, q ∈ w.files → below d q = true → q ∈ targets)
     (hdirs : ∀ q, q ∈ w.dirs → below d q = false) :
     d ∉ (cleanTargets false t targets (w, evs)).1.dirs :=
-  cleanTargets_rmdir t targets (w, evs) d hd hnf hfiles hdirs
+  cleanTargets_rmdir t targets (w, evs) d hd hnf hnl hfiles hdirs
+
+/-- **symlink_destination_untouched** — a target that is a symbolic link: `clean_targets` tests it through the
+    link (`isfile` / `isdir` follow it) but acts on the link itself; no regular file and no directory — in
+    particular not the link's destination — is removed -/
+theorem symlink_destination_untouched (dry : Bool) (t : Name) (st : World × List Ev) (p : Path)
+    (hl : (linkDest st.1 p).isSome = true) (hnf : p ∉ st.1.files) :
+    (rmTarget dry t st p).1.files = st.1.files ∧ (rmTarget dry t st p).1.dirs = st.1.dirs := by
+  unfold rmTarget
+  simp only [hnf, if_false, hl, if_true]
+  exact rmLink_files dry t st p _
+
+/-- **no_links_no_crash** — the one way the model knows for `clean` to die half-way (`os.rmdir` called on a
+    symbolic link to an empty directory, event `crash`) needs a symbolic link: without links in the world the
+    command runs to its end, so every statement here about `res` is a statement about the code's full run -/
+theorem no_links_no_crash (tbl : Table) (r : Req) (w : World) (res : Result)
+    (h : run tbl r w = .ok res) (hl : w.links = []) : res.crashed = false := by
+  unfold run at h
+  cases hp : plan tbl r with
+  | error e => simp [hp] at h
+  | ok p =>
+    simp only [hp] at h
+    cases h
+    have := (cleanTasks_nlnc tbl r.dryrun r.forget p.order w hl).2
+    simp only [Result.crashed, List.any_eq_false]
+    intro e he
+    simp [this e he]
+
+/-- a target `dist/latest.txt -> ../store/v1.txt`: the link goes, the file it points to (a target of no task) stays;
+    a target link to an empty directory: the announcement, then the crash -/
+example :
+    (match run [⟨['t'], [], [], none, [['l']], .targets⟩] ⟨[], none, false, false, false, false⟩
+        ⟨[['v']], [], [], [(['l'], ['v'])]⟩ with
+      | .ok res => some (res.world.files, res.world.links.map Prod.fst, res.events, res.crashed) | .error _ => none) =
+    some ([['v']], [], [Ev.rmFile 0 ['l']], false) ∧
+    (match run [⟨['t'], [], [], none, [['l']], .targets⟩] ⟨[], none, false, false, false, false⟩
+        ⟨[], [['e']], [], [(['l'], ['e'])]⟩ with
+      | .ok res => some (res.world.dirs, res.events, res.crashed) | .error _ => none) =
+    some ([['e']], [Ev.rmDir 0 ['l'], Ev.crash 0 ['l']], true) := by decide
 
 /-- **dryrun_frame** — with `--dry-run` the command changes neither files, nor directories, nor the DB
     (whatever else is on the command line, `--forget` included) -/
@@ -159,11 +198,11 @@ theorem dryrun_runs_only_aware_actions (tbl : Table) (r : Req) (w : World) (res 
     (told `True`); the same list on a real clean runs all three and removes `x` -/
 example :
     (match run [⟨['t'], [], [], none, [], .actions [⟨.aware, none⟩, ⟨.cmd, some (.rm ['x'])⟩, ⟨.plain, none⟩]⟩]
-        ⟨[], none, false, false, true, false⟩ ⟨[['x']], [], [0]⟩ with
+        ⟨[], none, false, false, true, false⟩ ⟨[['x']], [], [0], []⟩ with
       | .ok res => some (res.world.files, res.events) | .error _ => none) =
     some ([['x']], [Ev.executing 0 0, Ev.ran 0 0 true, Ev.executing 0 1, Ev.executing 0 2]) ∧
     (match run [⟨['t'], [], [], none, [], .actions [⟨.aware, none⟩, ⟨.cmd, some (.rm ['x'])⟩, ⟨.plain, none⟩]⟩]
-        ⟨[], none, false, false, false, false⟩ ⟨[['x']], [], [0]⟩ with
+        ⟨[], none, false, false, false, false⟩ ⟨[['x']], [], [0], []⟩ with
       | .ok res => some (res.world.files, res.events) | .error _ => none) =
     some ([], [Ev.executing 0 0, Ev.ran 0 0 false, Ev.executing 0 1, Ev.cmd 0 1, Ev.executing 0 2, Ev.ran 0 2 false]) := by
   decide
@@ -254,7 +293,7 @@ example :
     set) stays; the file inside the target directory goes before the directory -/
 example :
     (match run [⟨['t'], [], [], none, [['d'], ['d', '/', 'f']], .targets⟩] ⟨[], none, false, false, false, true⟩
-        ⟨[['d', '/', 'f']], [['d']], [0, 4]⟩ with
+        ⟨[['d', '/', 'f']], [['d']], [0, 4], []⟩ with
       | .ok res => some (res.world.files, res.world.dirs, res.world.db, res.events)
       | .error _ => none) =
     some ([], [], [4], [Ev.rmFile 0 ['d', '/', 'f'], Ev.rmDir 0 ['d']]) := by decide
